@@ -30,6 +30,7 @@ from sqllineage.core.parser.sqlparse.utils import (
     is_subquery,
     is_token_negligible,
 )
+from sqllineage.exceptions import InvalidSyntaxException
 from sqllineage.utils.entities import AnalyzerContext
 from sqllineage.utils.helpers import trim_comment
 
@@ -41,6 +42,27 @@ class SqlParseLineageAnalyzer(LineageAnalyzer):
     SUPPORTED_DIALECTS = [SQLPARSE_DIALECT]
 
     def analyze(
+        self, sql: str, metadata_provider: MetaDataProvider
+    ) -> StatementLineageHolder:
+        try:
+            return self._analyze(sql, metadata_provider)
+        except (
+            AssertionError,
+            AttributeError,
+            IndexError,
+            KeyError,
+            TypeError,
+            ValueError,
+        ) as e:
+            # this analyzer does not validate its input, so token handlers can trip over text that is not
+            # well-formed SQL; report that as what it is instead of leaking an internal error
+            raise InvalidSyntaxException(
+                f"This SQL statement is unparsable, please check potential syntax error for SQL:\n"
+                f"{sql}\n"
+                f"{type(e).__name__}: {e}"
+            ) from e
+
+    def _analyze(
         self, sql: str, metadata_provider: MetaDataProvider
     ) -> StatementLineageHolder:
         # get rid of comments, which cause inconsistencies in sqlparse output
